@@ -190,7 +190,7 @@ func c02build(c *fw.Ctx, idx int) c02case {
 		// structural mistakes: a valid template plus one break whose invalidity is certain
 		cs.MustErr = true
 		valid := c02valid(r, d)
-		switch m := r.Intn(7); m {
+		switch m := r.Intn(10); m {
 		case 0:
 			cs.Class = "struct-unterminated-action"
 			cs.Src = valid + d.L + " x "
@@ -219,6 +219,15 @@ func c02build(c *fw.Ctx, idx int) c02case {
 		case 6:
 			cs.Class = "struct-late-import"
 			cs.Src = d.L + " 1 " + d.R + valid + d.L + `import "/lib.jet"` + d.R
+		case 7: // extends/import after other content, following a legitimate header
+			cs.Class = "struct-late-import-after-extends"
+			cs.Src = d.L + `extends "/base.jet"` + d.R + " hello " + valid + d.L + `import "/lib.jet"` + d.R
+		case 8:
+			cs.Class = "struct-late-extends-after-import"
+			cs.Src = d.L + `import "/lib.jet"` + d.R + "text" + d.L + `extends "/base.jet"` + d.R + valid
+		case 9:
+			cs.Class = "struct-late-import-after-import"
+			cs.Src = d.L + `import "/lib.jet"` + d.R + d.L + ` "x" ` + d.R + d.L + `import "/lib.jet"` + d.R
 		}
 	default:
 		// reference sets
